@@ -1,17 +1,42 @@
 //go:build verif
 
-package ntpestimator
+// C25 correspondence harness (external test package: it also drives internal/stream and
+// internal/protocols/hls, which import the estimator).
+package ntpestimator_test
 
 import (
 	"fmt"
 	"math"
 	"math/big"
+	"reflect"
+	"strconv"
 	"strings"
+	"sync"
+	"sync/atomic"
 	"testing"
+	"testing/synctest"
 	"time"
+	"unsafe"
 
+	"github.com/bluenviron/gohlslib/v2"
+	hlscodecs "github.com/bluenviron/gohlslib/v2/pkg/codecs"
+	"github.com/bluenviron/gortsplib/v5/pkg/description"
+	"github.com/bluenviron/gortsplib/v5/pkg/format"
+	"github.com/bluenviron/mediacommon/v2/pkg/codecs/mpeg4audio"
+
+	"github.com/bluenviron/mediamtx/internal/conf"
+	"github.com/bluenviron/mediamtx/internal/ntpestimator"
+	"github.com/bluenviron/mediamtx/internal/protocols/hls"
+	"github.com/bluenviron/mediamtx/internal/stream"
+	"github.com/bluenviron/mediamtx/internal/test"
+	"github.com/bluenviron/mediamtx/internal/unit"
 	"github.com/bluenviron/mediamtx/internal/verifutil"
 )
+
+// Estimator is the type under test.
+type Estimator = ntpestimator.Estimator
+
+var verifC25T *testing.T
 
 // seconds between the zero time.Time (January 1, year 1 UTC) and the Unix epoch
 const verifC25ZeroToUnix = 62135596800
@@ -39,10 +64,9 @@ func verifC25Time(sec, nsec int64, zone string) time.Time {
 }
 
 func verifC25Estimate(e *Estimator, now time.Time, pts int64) (out time.Time, panicked bool) {
-	old := timeNow
-	timeNow = func() time.Time { return now }
+	ntpestimator.VerifC25SetTimeNow(func() time.Time { return now })
 	defer func() {
-		timeNow = old
+		ntpestimator.VerifC25SetTimeNow(nil)
 		if r := recover(); r != nil {
 			if !strings.Contains(fmt.Sprint(r), "integer divide by zero") {
 				panic(r)
@@ -65,7 +89,12 @@ func verifC25Exec(op string) string {
 		if p {
 			return "panic"
 		}
-		return fmt.Sprintf("out=%s ref=%s pts=%d", verifC25Ns(out), verifC25Ns(verifC25E.refNTP), verifC25E.refPTS)
+		ref, refPTS := ntpestimator.VerifC25Anchor(verifC25E)
+		return fmt.Sprintf("out=%s ref=%s pts=%d", verifC25Ns(out), verifC25Ns(ref), refPTS)
+	case "aa":
+		return verifC25RunAA(verifutil.Atoi(f[1]), f[2:])
+	case "hls":
+		return verifC25RunHLS(f[1], verifutil.Atoi(f[2]), verifutil.Atoi(f[3]), f[4] == "1", f[5:])
 	}
 	return "bad-op"
 }
@@ -92,19 +121,26 @@ func (c verifC25Clock) add(ns int64) verifC25Clock {
 // wall clock reading that puts the anchored estimate at `off` ns before it (uses a private real Estimator
 // only to learn the current anchor; the op stream itself is replayed by Exec on a fresh one)
 func verifC25NowFor(e *Estimator, pts int64, off int64) (verifC25Clock, bool) {
-	if e.refNTP.IsZero() || e.ClockRate <= 0 {
+	refNTP, refPTS := ntpestimator.VerifC25Anchor(e)
+	if refNTP.IsZero() || e.ClockRate <= 0 {
 		return verifC25Clock{}, false
 	}
-	d := new(big.Int).Mul(big.NewInt(pts-e.refPTS), big.NewInt(1000000000))
+	d := new(big.Int).Mul(big.NewInt(pts-refPTS), big.NewInt(1000000000))
 	d.Quo(d, big.NewInt(int64(e.ClockRate)))
 	if !d.IsInt64() {
 		return verifC25Clock{}, false
 	}
-	c := verifC25Clock{e.refNTP.Unix() + verifC25ZeroToUnix, int64(e.refNTP.Nanosecond())}
+	c := verifC25Clock{refNTP.Unix() + verifC25ZeroToUnix, int64(refNTP.Nanosecond())}
 	return c.add(d.Int64()).add(off), true
 }
 
 func verifC25Gen(r *verifutil.Rand, i int, thorough bool) []string {
+	switch i % 10 {
+	case 3:
+		return verifC25GenAA(r, thorough)
+	case 7:
+		return verifC25GenHLS(r, thorough)
+	}
 	n := 8 + r.Intn(40)
 	if thorough {
 		n = 8 + r.Intn(200)
@@ -193,11 +229,15 @@ func verifC25Gen(r *verifutil.Rand, i int, thorough bool) []string {
 }
 
 func TestVerifC25(t *testing.T) {
+	verifC25T = t
 	verifutil.Main(t, &verifutil.Harness{
 		ID: "C25", Exec: verifC25Exec, Gen: verifC25Gen, Quick: 3000, Thorough: 30000,
 		Class: func(op, impl string) string {
 			if strings.HasPrefix(op, "reset") {
 				return "reset"
+			}
+			if strings.HasPrefix(op, "aa ") || strings.HasPrefix(op, "hls ") {
+				return verifC25ClassTrace(op, impl)
 			}
 			if impl == "panic" {
 				return "est/panic-zero-rate"
@@ -224,6 +264,377 @@ func TestVerifC25(t *testing.T) {
 				return "est/anchored-estimate"
 			}
 		},
-		NonTrivial: func(op, impl string) bool { return strings.HasPrefix(op, "est") },
+		NonTrivial: func(op, impl string) bool { return !strings.HasPrefix(op, "reset") },
 	})
+}
+
+// ---------------------------------------------------------------------------------------------
+// round 2: integration sites of the estimator, one scenario per op line, run in a synctest bubble
+// (fake clock: time only advances while every goroutine of the scenario is blocked).
+
+type verifC25Frame struct {
+	now  time.Time
+	pts  int64
+	ntp  time.Time
+	flag string
+}
+
+type verifC25Trace struct {
+	mu     sync.Mutex
+	frames []verifC25Frame
+}
+
+func (tr *verifC25Trace) String() string {
+	tr.mu.Lock()
+	defer tr.mu.Unlock()
+	var sb strings.Builder
+	fmt.Fprintf(&sb, "n=%d", len(tr.frames))
+	for _, f := range tr.frames {
+		fmt.Fprintf(&sb, " %s,%d,%s,%s", verifC25Ns(f.now), f.pts, verifC25Ns(f.ntp), f.flag)
+	}
+	return sb.String()
+}
+
+// runs the scenario; the wall clock read by the estimator is the bubble's clock plus a skew that the
+// `j` tokens change (a wall-clock step that the monotonic clock does not see).
+func verifC25Bubble(body func(clock func() time.Time, jump func(time.Duration))) (res string) {
+	ok := false
+	synctest.Test(verifC25T, func(_ *testing.T) {
+		var skew atomic.Int64
+		clock := func() time.Time { return time.Now().Add(time.Duration(skew.Load())) }
+		ntpestimator.VerifC25SetTimeNow(clock)
+		defer ntpestimator.VerifC25SetTimeNow(nil)
+		body(clock, func(d time.Duration) { skew.Add(int64(d)) })
+		ok = true
+	})
+	if !ok {
+		return "scenario-aborted"
+	}
+	return res
+}
+
+func verifC25TokenArg(tok string) int64 {
+	v, err := strconv.ParseInt(tok[1:], 10, 64)
+	if err != nil {
+		panic("verif c25: bad token " + tok)
+	}
+	return v
+}
+
+// always-available stream: offline filler <-> publisher, NTP replaced by the estimator
+func verifC25RunAA(rate int, toks []string) string {
+	tr := &verifC25Trace{}
+	out := ""
+	verifC25Bubble(func(clock func() time.Time, jump func(time.Duration)) {
+		strm := &stream.Stream{
+			AlwaysAvailable:       true,
+			AlwaysAvailableTracks: []conf.AlwaysAvailableTrack{{Codec: conf.CodecOpus}},
+			WriteQueueSize:        512,
+			RTPMaxPayloadSize:     1450,
+			ReplaceNTP:            true,
+			Parent:                test.NilLogger,
+		}
+		if err := strm.Initialize(); err != nil {
+			out = "init-error"
+			return
+		}
+		medi := strm.OrigDesc.Medias[0]
+		if medi.Formats[0].ClockRate() != rate {
+			out = "bad-rate"
+			strm.Close()
+			return
+		}
+		r := &stream.Reader{Parent: test.NilLogger}
+		r.OnData(medi, medi.Formats[0], func(u *unit.Unit) error {
+			flag := "f" // offline filler
+			if pl, ok := u.Payload.(unit.PayloadOpus); ok && len(pl) == 1 && len(pl[0]) == 2 {
+				flag = "p" // publisher
+			}
+			tr.mu.Lock()
+			tr.frames = append(tr.frames, verifC25Frame{clock(), u.PTS, u.NTP, flag})
+			tr.mu.Unlock()
+			return nil
+		})
+		strm.AddReader(r)
+		synctest.Wait()
+
+		var sub *stream.SubStream
+		for _, tok := range toks {
+			switch {
+			case tok == "on":
+				if sub == nil {
+					sub = &stream.SubStream{
+						Stream: strm,
+						InDesc: &description.Session{Medias: []*description.Media{{
+							Type:    description.MediaTypeAudio,
+							Formats: []format.Format{&format.Opus{PayloadTyp: 96, ChannelCount: 2}},
+						}}},
+					}
+					if err := sub.Initialize(); err != nil {
+						out = "substream-error"
+					}
+				}
+			case tok == "off":
+				if sub != nil {
+					sub = nil
+					if err := strm.StartOfflineSubStream(); err != nil {
+						out = "offline-error"
+					}
+				}
+			case tok[0] == 'w':
+				time.Sleep(time.Duration(verifC25TokenArg(tok)))
+			case tok[0] == 'j':
+				jump(time.Duration(verifC25TokenArg(tok)))
+			case tok[0] == 'p':
+				if sub != nil {
+					sub.WriteUnit(sub.InDesc.Medias[0], sub.InDesc.Medias[0].Formats[0], &unit.Unit{
+						PTS:     verifC25TokenArg(tok),
+						Payload: unit.PayloadOpus{{1, 2}},
+					})
+				}
+			}
+			synctest.Wait()
+		}
+		strm.RemoveReader(r)
+		strm.Close()
+		synctest.Wait()
+	})
+	if out != "" {
+		return out
+	}
+	return tr.String()
+}
+
+// a gohlslib.Client whose track table holds `track`, and the way to deliver a sample to the callback
+// that hls.ToStream registers for it (the table and the callback are unexported: reflection).
+func verifC25HLSClient(track *gohlslib.Track) (*gohlslib.Client, func(pts int64, data [][]byte)) {
+	c := &gohlslib.Client{}
+	fv := reflect.ValueOf(c).Elem().FieldByName("tracks")
+	fv = reflect.NewAt(fv.Type(), unsafe.Pointer(fv.UnsafeAddr())).Elem()
+	m := reflect.MakeMap(fv.Type())
+	ct := reflect.New(fv.Type().Elem().Elem())
+	m.SetMapIndex(reflect.ValueOf(track), ct)
+	fv.Set(m)
+	return c, func(pts int64, data [][]byte) {
+		od := ct.Elem().FieldByName("onData")
+		od = reflect.NewAt(od.Type(), unsafe.Pointer(od.UnsafeAddr())).Elem()
+		od.Interface().(func(int64, int64, [][]byte))(pts, pts, data)
+	}
+}
+
+func verifC25RunHLS(codec string, trackRate, outRate int, useAbs bool, toks []string) string {
+	tr := &verifC25Trace{}
+	out := ""
+	verifC25Bubble(func(clock func() time.Time, jump func(time.Duration)) {
+		track := &gohlslib.Track{ClockRate: trackRate}
+		var data [][]byte
+		switch codec {
+		case "klv":
+			track.Codec = &hlscodecs.KLV{}
+			data = [][]byte{{1, 2, 3}}
+		case "opus":
+			track.Codec = &hlscodecs.Opus{ChannelCount: 2}
+			data = [][]byte{{0xF8, 0xFF, 0xFE}}
+		default: // aac<sampleRate>
+			sr, _ := strconv.Atoi(strings.TrimPrefix(codec, "aac"))
+			track.Codec = &hlscodecs.MPEG4Audio{Config: mpeg4audio.AudioSpecificConfig{
+				Type: mpeg4audio.ObjectTypeAACLC, SampleRate: sr, ChannelConfig: 2, ChannelCount: 2,
+			}}
+			data = [][]byte{{1, 2, 3, 4}}
+		}
+		c, emit := verifC25HLSClient(track)
+		var sub *stream.SubStream
+		medias, err := hls.ToStream(c, []*gohlslib.Track{track}, &conf.Path{UseAbsoluteTimestamp: useAbs}, &sub)
+		if err != nil || len(medias) != 1 {
+			out = "tostream-error"
+			return
+		}
+		if medias[0].Formats[0].ClockRate() != outRate {
+			out = fmt.Sprintf("bad-outrate %d", medias[0].Formats[0].ClockRate())
+			return
+		}
+		strm := &stream.Stream{
+			OrigDesc:          &description.Session{Medias: medias},
+			WriteQueueSize:    512,
+			RTPMaxPayloadSize: 1450,
+			ReplaceNTP:        false, // as internal/staticsources/hls does
+			Parent:            test.NilLogger,
+		}
+		if err = strm.Initialize(); err != nil {
+			out = "init-error"
+			return
+		}
+		sub = &stream.SubStream{Stream: strm}
+		if err = sub.Initialize(); err != nil {
+			out = "substream-error"
+			strm.Close()
+			return
+		}
+		r := &stream.Reader{Parent: test.NilLogger}
+		r.OnData(medias[0], medias[0].Formats[0], func(u *unit.Unit) error {
+			tr.mu.Lock()
+			tr.frames = append(tr.frames, verifC25Frame{clock(), u.PTS, u.NTP, "h"})
+			tr.mu.Unlock()
+			return nil
+		})
+		strm.AddReader(r)
+		synctest.Wait()
+		for _, tok := range toks {
+			switch tok[0] {
+			case 'w':
+				time.Sleep(time.Duration(verifC25TokenArg(tok)))
+			case 'j':
+				jump(time.Duration(verifC25TokenArg(tok)))
+			case 'p':
+				emit(verifC25TokenArg(tok), data)
+			}
+			synctest.Wait()
+		}
+		strm.RemoveReader(r)
+		strm.Close()
+		synctest.Wait()
+	})
+	if out != "" {
+		return out
+	}
+	return tr.String()
+}
+
+func verifC25Jump(r *verifutil.Rand) string {
+	j := []int64{1, -1, 1000000, -1000000, 1000000000, -1000000000, 4999999999, -5000000001, 6000000000,
+		-6000000000, 3600000000000, -3600000000000}[r.Intn(12)]
+	return fmt.Sprintf("j%d", j)
+}
+
+func verifC25GenAA(r *verifutil.Rand, thorough bool) []string {
+	const rate = 48000
+	toks := []string{}
+	phases := 1 + r.Intn(3)
+	if thorough {
+		phases = 1 + r.Intn(5)
+	}
+	for ph := 0; ph < phases; ph++ {
+		// offline for a while: often shorter than the 5 s window (publisher right after creation, flapping)
+		var off int64
+		switch r.Intn(4) {
+		case 0:
+			off = int64(r.Intn(400)) * 1000000
+		case 1, 2:
+			off = int64(100+r.Intn(4500)) * 1000000
+		default:
+			off = int64(5000+r.Intn(3000)) * 1000000
+		}
+		toks = append(toks, fmt.Sprintf("w%d", off))
+		if r.Chance(1, 6) {
+			toks = append(toks, verifC25Jump(r))
+		}
+		toks = append(toks, "on")
+		// publisher: timestamps restart from 0 (usual) or from an arbitrary base
+		pts := int64(0)
+		if r.Chance(1, 3) {
+			pts = int64(r.U64() % (1 << 31))
+		}
+		n := 2 + r.Intn(25)
+		step := int64(960 * (1 + r.Intn(10))) // 20..200 ms of audio
+		speed := []int64{100, 100, 100, 90, 110, 50, 101}[r.Intn(7)]
+		for k := 0; k < n; k++ {
+			toks = append(toks, fmt.Sprintf("p%d", pts))
+			pts += step
+			wait := step * 1000000000 / rate * 100 / speed
+			switch {
+			case r.Chance(1, 12):
+				wait = 0 // burst
+			case r.Chance(1, 12):
+				wait += int64(r.Intn(300)) * 1000000 // network stall
+			}
+			if wait > 0 {
+				toks = append(toks, fmt.Sprintf("w%d", wait))
+			}
+			if r.Chance(1, 40) {
+				toks = append(toks, verifC25Jump(r))
+			}
+		}
+		toks = append(toks, "off")
+	}
+	toks = append(toks, fmt.Sprintf("w%d", int64(100+r.Intn(1500))*1000000))
+	return []string{fmt.Sprintf("aa %d %s", rate, strings.Join(toks, " "))}
+}
+
+func verifC25GenHLS(r *verifutil.Rand, thorough bool) []string {
+	type cd struct {
+		name string
+		out  int
+	}
+	c := []cd{{"klv", 90000}, {"opus", 48000}, {"aac44100", 44100}, {"aac48000", 48000}, {"aac8000", 8000},
+		{"aac22050", 22050}, {"aac96000", 96000}}[r.Intn(7)]
+	trackRate := []int{90000, 90000, 90000, c.out, 44100, 48000, 1000, 12800, 30000, 1000000, 600, 10000000}[r.Intn(12)]
+	abs := r.Intn(2)
+	n := 6 + r.Intn(40)
+	if thorough {
+		n = 6 + r.Intn(150)
+	}
+	pts := int64(r.U64() % (1 << 31))
+	if r.Chance(1, 4) {
+		pts = 0
+	}
+	frame := int64(trackRate) / int64(1+r.Intn(50)) // ticks per frame
+	if frame == 0 {
+		frame = 1
+	}
+	toks := []string{}
+	for k := 0; k < n; k++ {
+		toks = append(toks, fmt.Sprintf("p%d", pts))
+		d := frame
+		switch {
+		case r.Chance(1, 15): // discontinuity
+			d = int64(r.U64() % uint64(int64(trackRate)*20+1))
+		case r.Chance(1, 15): // reordered frame
+			d = -frame * int64(r.Intn(3))
+		}
+		pts += d
+		if pts < 0 {
+			pts = 0
+		}
+		wait := frame * 1000000000 / int64(trackRate)
+		switch {
+		case r.Chance(1, 10):
+			wait = 0
+		case r.Chance(1, 10):
+			wait += int64(r.Intn(500)) * 1000000
+		case r.Chance(1, 30):
+			wait += int64(5+r.Intn(3)) * 1000000000
+		}
+		if wait > 0 {
+			toks = append(toks, fmt.Sprintf("w%d", wait))
+		}
+		if r.Chance(1, 30) {
+			toks = append(toks, verifC25Jump(r))
+		}
+	}
+	return []string{fmt.Sprintf("hls %s %d %d %d %s", c.name, trackRate, c.out, abs, strings.Join(toks, " "))}
+}
+
+func verifC25ClassTrace(op, impl string) string {
+	kind := op[:strings.IndexByte(op, ' ')]
+	a := strings.Fields(impl)
+	if len(a) == 0 || !strings.HasPrefix(a[0], "n=") {
+		return kind + "/" + impl
+	}
+	reanchored, anchored := 0, 0
+	for _, u := range a[1:] {
+		p := strings.Split(u, ",")
+		if len(p) == 4 && p[0] == p[2] {
+			reanchored++
+		} else {
+			anchored++
+		}
+	}
+	switch {
+	case anchored == 0:
+		return kind + "/all-frames-at-wall-clock"
+	case reanchored <= 1:
+		return kind + "/one-anchor"
+	default:
+		return kind + "/several-anchors"
+	}
 }
